@@ -1,6 +1,6 @@
 (* C05 — Storage physics: level within [0, size], ends at end level, rates within rate x dt. *)
 From Coq Require Import QArith List String Bool.
-From EAO Require Import Num LP Mapping Grid Assets StorageProofs Build.
+From EAO Require Import Num LP Mapping Grid Assets StorageProofs StorageBlocks Build.
 Import ListNotations.
 Open Scope Q_scope.
 
@@ -54,6 +54,20 @@ Theorem C05_level_rows :
 Proof. exact storage_physics. Qed.
 Print Assumptions C05_level_rows.
 
+(* Time blocks (assets.py:413-446): block-diagonal level rows for ANY block boundaries that form blocks (checked on the
+   boundaries of every compared case), any n and step lengths.  With start level = end level and no inflow (where the
+   implementation's rows are right; the other cases are known findings) the physical level of the WHOLE history is within
+   [0, size] inside every block and back at the end level at the last step of every block. *)
+Theorem C05_time_blocks :
+  forall p n dt x aa, n = List.length dt -> blocks_coherent aa n = true ->
+  sp_inflow p == 0 -> sp_start p == sp_end p ->
+  Forall (row_ok x) (st_block_rows p n dt aa) ->
+  forall t, (t < n)%nat ->
+    (blk_last aa t = true -> level p n dt x t == sp_end p) /\
+    (blk_last aa t = false -> 0 <= level p n dt x t /\ level p n dt x t <= sp_size p).
+Proof. exact block_physics. Qed.
+Print Assumptions C05_time_blocks.
+
 (* no simultaneous charge and discharge when the mode variable is binary *)
 Theorem C05_no_simultaneous :
   forall name n cp ct I a x i, (i < n)%nat ->
@@ -82,3 +96,16 @@ Qed.
 Example C05_ctor_nonvacuous : storage_ctor_ok exp = true /\
   storage_ctor_ok (Build_storage_p "s" ["n"]%string 4 2 2 3 (9#2) 0 0 0 1 0 None false None) = false.
 Proof. split; vm_compute; reflexivity. Qed.
+(* blocks [0,2) [2,4): charge 1, discharge 1 in each block; level 2,1,2,1 with start = end = 1 *)
+Example C05_blocks_nonvacuous :
+  let p := Build_storage_p "s" ["n"]%string 4 2 2 1 1 0 0 0 1 0 None false None in
+  let x := [-1; 1; -1; 1] in
+  blocks_coherent [0; 2; 4]%nat 4 = true /\ Forall (row_ok x) (st_block_rows p 4 [1; 1; 1; 1] [0; 2; 4]%nat) /\
+  level p 4 [1; 1; 1; 1] x 2 == 2 /\ blk_last [0; 2; 4]%nat 1 = true.
+Proof.
+  cbv zeta. split; [|split; [|split]].
+  - vm_compute. reflexivity.
+  - set (r := st_block_rows _ _ _ _). vm_compute in r. subst r. repeat constructor; vm_compute; intuition discriminate.
+  - vm_compute. reflexivity.
+  - vm_compute. reflexivity.
+Qed.
